@@ -246,6 +246,8 @@ fn hostile_spec(claim: &PeerId, seed: u64) -> RpcSpec {
 pub fn e2e_scenario(idx: usize, seed: u64) -> ScenarioResult {
     runner::sim_block_on(|| async move {
         let mut w = World::new(seed);
+        // adversary endpoints must stay alive until the scenario ends (and be dropped then)
+        let mut keep_alive: Vec<Adversary> = Vec::new();
         let mut rng = StdRng::seed_from_u64(seed ^ 0xc01b);
         let lossy = rng.gen_range(0..4) == 0;
         if lossy {
@@ -331,7 +333,7 @@ pub fn e2e_scenario(idx: usize, seed: u64) -> ScenarioResult {
                     }
                     Err(_) => admitted_as = Some(false),
                 }
-                std::mem::forget(adv);
+                keep_alive.push(adv);
             }
             _ => {
                 // adversary as listener
@@ -380,7 +382,7 @@ pub fn e2e_scenario(idx: usize, seed: u64) -> ScenarioResult {
                     Ok(p) => problems.push(format!("connect(adversary address) returned {} although the adversary only holds Y's key", pid_hex(p))),
                     Err(_) => admitted_as = Some(false),
                 }
-                std::mem::forget(adv);
+                keep_alive.push(adv);
             }
         }
         let _ = listener_identity;
